@@ -47,13 +47,17 @@ impl WorldCtx {
             return None;
         }
         let name = rng.pick(names).clone();
-        let m = self.model(e);
-        let c = m.message(&name)?;
         let target = match rng.below(3) {
             0 => 0x7FC0 + rng.below(0x80) as usize,
             1 => 0xFF80 + rng.below(0x60) as usize,
             _ => 0x4000 + rng.below(0x10000) as usize,
         };
+        self.big_compressed_frame_of(e, d, rng, &name, target)
+    }
+    /// the compressed message `name` with an incompressible payload of about `target` bytes on the wire
+    pub fn big_compressed_frame_of(&self, e: Exp, d: Dir, rng: &mut Rng, name: &str, target: usize) -> Option<(Value, String)> {
+        let m = self.model(e);
+        let c = m.message(name)?;
         let knobs = Knobs { endless_len: Some(target), max_arr: 600, size_budget: target + 2000, ..Knobs::default() };
         let f = m.encode(c, rng, &knobs).ok()?;
         if f.wire_body().len() > max_expressible_body(e, d) {
@@ -842,6 +846,9 @@ pub fn run_session(o: &mut Outcome, exp: Exp, dir: Dir, wl: &Workload, sc: &Valu
                     }
                     if lenclass == "large" {
                         o.count("probe_large_message_decrypted", 1);
+                    }
+                    if body_len >= 0x10000 {
+                        o.count("probe_message_of_64KiB_or_more_read_back", 1);
                     }
                     continue;
                 }
